@@ -9,6 +9,7 @@ import (
 	"io"
 	"os"
 	"reflect"
+	"sort"
 	"strings"
 	"testing/iotest"
 	"unsafe"
@@ -604,6 +605,27 @@ func runC07(r *Run) {
 					}
 				}
 			}
+			// the snappy checksum replaced as a whole: zeros (a field "not filled in"), ones, the
+			// checksum of the empty block, the bytes in reverse order
+			if c.Codec == "snappy" && rawLen >= 4 {
+				tr := gf.file[rawOff+rawLen-4 : rawOff+rawLen]
+				for _, repl := range [][]byte{{0, 0, 0, 0}, {0xff, 0xff, 0xff, 0xff}, {tr[3], tr[2], tr[1], tr[0]}, {0, 0, 0, 1}} {
+					if bytes.Equal(repl, tr) {
+						continue
+					}
+					mut := append([]byte{}, gf.file...)
+					copy(mut[rawOff+rawLen-4:], repl)
+					res := readFileImpl(gf.g, mut, -1, false)
+					d2 := withKV(desc, "checksum_replaced", fmt.Sprintf("block %d: %x instead of %x", bi, repl, tr))
+					id := addFileCase(r, gf, mut, -1, res, d2, fmt.Sprintf("crcrepl/%d/%x/%x", bi, repl, gf.file))
+					r.Count("damage/checksum-replaced")
+					if res.Class != "err" {
+						r.Fail(id, "checksum-mismatch-accepted", fmt.Sprintf("block %d: the four checksum bytes replaced by %x (the data's checksum is %x): ReadFile returned %s with %d records", bi, repl, tr, res.Class, res.N), d2)
+					} else if res.N != before {
+						r.Fail(id, "damage-records", fmt.Sprintf("block %d with a replaced checksum: %d records delivered, expected %d", bi, res.N, before), d2)
+					}
+				}
+			}
 			// stored bytes (compressed payload incl. snappy checksum)
 			if rawLen > 0 {
 				for _, bit := range pickBits(r, rawLen*8, r.N(8, 400)) {
@@ -738,6 +760,17 @@ func headerDamage(r *Run, gf *genFileT, desc map[string]any) {
 	// no codec entry: uncompressed
 	if c.Codec == "null" || c.Codec == "" {
 		try("no-codec-entry", containerWithMeta(c, map[string][]byte{"avro.schema": c.SchemaJSON}), "ok", len(gf.wants))
+		// application metadata whose names resemble the reserved ones (only names starting with
+		// "avro." are reserved): no codec entry still means uncompressed, and an entry called
+		// "schema" is not the schema
+		for _, nm := range []string{"codec", "Avro.codec", "avro_codec", "avro.codec "} {
+			for _, val := range []string{"deflate", "h264"} {
+				try(fmt.Sprintf("lookalike-entry:%s=%s", nm, val), containerWithMeta(c, map[string][]byte{"avro.schema": c.SchemaJSON, nm: []byte(val), "schema": []byte(`"long"`)}), "ok", len(gf.wants))
+			}
+		}
+		for _, nm := range []string{"schema", "Avro.schema", "avro.schema ", "avro_schema"} {
+			try("missing-schema:lookalike-"+nm, containerWithMeta(noSchema, map[string][]byte{"avro.codec": []byte("null"), nm: c.SchemaJSON}), "err", 0)
+		}
 	}
 }
 
@@ -750,6 +783,17 @@ func containerWithMeta(c *Container, meta map[string][]byte) []byte {
 			out = appendLP(out, []byte(k))
 			out = appendLP(out, v)
 		}
+	}
+	var others []string
+	for k := range meta {
+		if k != "avro.schema" && k != "avro.codec" {
+			others = append(others, k)
+		}
+	}
+	sort.Strings(others)
+	for _, k := range others {
+		out = appendLP(out, []byte(k))
+		out = appendLP(out, meta[k])
 	}
 	if len(meta) > 0 {
 		out = append(out, 0)
